@@ -51,6 +51,16 @@ theorem handlers_use_required_kind :
     occursBefore drift_withdraw (· == .bankState .bank .failsInPausedState) isShareMove = true ∧
     occursBefore solend_withdraw (· == .bankState .bank .failsInPausedState) isShareMove = true := by decide
 
+open Mfi.Gen.Skel in
+/-- … and on EVERY path: the bank-state gate sits at conditional depth 0 of each of the thirteen handlers — it is not
+    skipped for flagged accounts, special kinds of bank, receivership, or any argument -/
+theorem bank_state_gate_unconditional :
+    ∀ h ∈ [(deposit, deposit_cond), (borrow, borrow_cond), (withdraw, withdraw_cond), (repay, repay_cond),
+           (liquidate, liquidate_cond), (handle_bankruptcy, handle_bankruptcy_cond),
+           (kamino_deposit, kamino_deposit_cond), (drift_deposit, drift_deposit_cond), (solend_deposit, solend_deposit_cond),
+           (kamino_withdraw, kamino_withdraw_cond), (drift_withdraw, drift_withdraw_cond), (solend_withdraw, solend_withdraw_cond)],
+      unconditionally h.1 h.2 isBankState = true := by decide
+
 /-! ### protocol-wide pause -/
 
 open Mfi.Gen.Acc in
